@@ -80,10 +80,23 @@ def handlePool (o : Op) : String :=
     | none => "bad-op"
   | none => "bad-op"
 
+/-- `dbo n=<int> ra=nil|<int>|bad` -/
+def handleDbo (o : Op) : String :=
+  match o.int? "n", o.get? "ra" with
+  | some n, some ra =>
+    let r : Option RetryAfter :=
+      if ra == "nil" then some .absent else if ra == "bad" then some .invalid
+      else (ra.toInt?).map .secs
+    match r with
+    | some r => s!"sec={backoffSeconds n r}"
+    | none => "bad-op"
+  | _, _ => "bad-op"
+
 def handle (line : String) : String :=
   let o := parseOp line
   if o.cmd == "http" then handleHttp o
   else if o.cmd == "pool" then handlePool o
+  else if o.cmd == "dbo" then handleDbo o
   else "bad-op"
 
 end XC.C50
